@@ -7,6 +7,7 @@ import IdpyVerif.Driver.Pkce
 import IdpyVerif.Driver.ClientAuthn
 import IdpyVerif.Driver.Jar
 import IdpyVerif.Driver.Registration
+import IdpyVerif.Driver.Subject
 open Idpy
 
 structure DState where
@@ -19,6 +20,7 @@ structure DState where
 def dispatch (st : DState) (fields : List String) : DState × String :=
   match fields with
   | "lv" :: args => (st, (Driver.C14.codec args).getD "bad-op")
+  | "sub" :: args => (st, (Driver.Subject.handle args).getD "bad-op")
   | "pkce" :: args => (st, (Driver.Pkce.handle args).getD "bad-op")
   | "redir" :: args => (st, (Driver.Redirect.handle args).getD "bad-op")
   | "msg" :: args => (st, (Driver.Msg.handle args).getD "bad-op")
